@@ -100,6 +100,25 @@ fn cargo_build(name: &str) -> (bool, BTreeMap<usize, String>, String) {
             continue;
         }
         let text = m["rendered"].as_str().unwrap_or("").to_string();
+        // An error inside the harness's own glue (rt::glue!/act!/actf! expansions, not inside
+        // lexer!) is the harness's problem, never a verdict about the definition.
+        fn in_macro(sp: &Value, name: &str) -> bool {
+            let mut cur = &sp["expansion"];
+            while !cur.is_null() {
+                if cur["macro_decl_name"].as_str().map(|n| n.contains(name)).unwrap_or(false) {
+                    return true;
+                }
+                cur = &cur["span"]["expansion"];
+            }
+            false
+        }
+        if let Some(spans) = m["spans"].as_array() {
+            let glue = spans.iter().any(|sp| in_macro(sp, "glue"));
+            let lexer = spans.iter().any(|sp| in_macro(sp, "lexer"));
+            if glue && !lexer {
+                infra(&format!("the harness glue (rt::glue!) does not compile against the generated lexer API:\n{}", text));
+            }
+        }
         let mut attributed = false;
         if let Some(spans) = m["spans"].as_array() {
             for sp in spans {
